@@ -31,6 +31,13 @@ const CONTEXTS = [
   'function f() { return a\n/* c */ + (@@) }', 'function f(){return@@}', 'function f() { return a+ +(@@) - -b }', 'function f() { return a++ + ++b + (@@) }', 'function f() { return a-- - --b - (@@) }'
 ]
 
+// TIGHT: the operation sits BARE (no parentheses of its own) in a position whose grammar only takes a narrow
+// expression class, so that whatever replaces it has to bring its own parentheses; inputs the parser refuses
+// (`class extends a + b {}`) are counted as rejected, the rest must stay valid
+const TIGHT_OPS = ['s.trim()', 's?.trim()', 'a?.b.concat(c)', 'f?.(x).trim()', 'a.b?.(x).concat(c)', 'a?.b?.concat(c)', 'o?.[k].trim()', '`${a}${f()}`', 'X.prototype.concat.call(a, f())', 'aloneMethod(a)', 'g().concat(f())', 'new X().concat(a)', 'a + f()', 'o.p += f()', 'a?.b.concat(c) + d', 'a?.b + f()']
+const TIGHT_EXPR = ['a ?? @@', '@@ ?? a', 'a ?? @@ ?? b', 'a || @@', '@@ || a', 'a && @@', '@@ && a', 'new @@', 'new @@()', '@@`t`', '@@ ** 2', '2 ** @@', '-@@', '+@@', '~@@', 'typeof @@', 'void @@', 'delete @@', '@@.p', '@@[0]', '@@()', '@@?.p', '@@?.()', 'a ? @@ : b', '@@ ? a : b', 'a ? b : @@', 'a, @@', '@@, a', 'y = @@', 'y ??= @@', 'y ||= @@', '@@ in o', 'a in @@', '@@ instanceof X', 'a < @@', '@@ < a', 'a == @@', 'a + @@', '@@ + a', 'a - @@', '@@ - a', 'a * @@', '!@@', 'x => @@', 'async x => @@', '[@@]', '[...@@]', 'h(...@@)', '({p: @@})', '({...@@})', '`${@@}`', 'o[@@]', 'a?.[@@]', 'a?.(@@)', 'a?.b(@@)', 'y = z = @@', '@@ ? @@ : @@', 'a ?? @@ + b', 'a | @@', 'a ^ @@ & b']
+const TIGHT_STMT = ['class K extends @@ {}', 'function f() { return class extends @@ {} }', 'function f() { for (x of @@) ; }', 'function f() { for (x in @@) ; }', 'function f() { for (x = @@; ;) break }', 'function f() { throw @@ }', 'function f() { if (@@) ; else ; }', 'function f() { while (@@) break }', 'function f() { do ; while (@@) }', 'function f() { switch (@@) { case @@: } }', 'function f() { with (@@) ; }', 'export default @@', 'async function f() { return await @@ }', 'async function f() { await @@ ?? a }', 'function* g() { yield @@ }', 'function* g() { yield* @@ }', 'function* g() { a ?? (yield @@) }', 'function f() { var {p = @@} = o }', 'function f(p = @@) {}', 'function f() { return { [@@]: 1 } }', 'function f() { return class { [@@]() {} static p = @@; q = @@ } }', 'function f() { lbl: @@ }', 'function f() { @@ }', 'function f() { @@\n;[a] }', 'function f() { a\n@@ }', 'function f() { return@@ }'.replace('return@@', 'return(@@)')]
+
 module.exports = mk({
   id: 'C08',
   families: ['A', 'B', 'C', 'G', 'M', 'S', 'T', 'H', 'Q', 'R', 'N', 'L'],
@@ -40,6 +47,12 @@ module.exports = mk({
     const ops = (tier === 'thorough' ? F.REP_OPS : F.REP_OPS_Q).map((o) => o.tpl)
     const r = enumerate([{ name: 'ctx', symbols: CONTEXTS, free: true }, { name: 'op', symbols: ops, free: true }, { name: 'config', symbols: ['FULL', 'COMMENTS'], free: true }], {})
     const leaves = r.leaves.map((l) => ({ fam: 'syntax', key: 'syn¦' + l.pick.ctx + '¦' + l.pick.op + '¦' + l.pick.config, code: l.pick.ctx.split('@@').join(l.pick.op), config: l.pick.config, desc: 'syntax ctx' }))
+    const tight = TIGHT_EXPR.map((c) => 'function f() { return ' + c + ' }').concat(TIGHT_STMT)
+    const tightOps = tier === 'thorough' ? TIGHT_OPS : TIGHT_OPS.slice(0, 10)
+    for (const ctx of tight) for (const op of tightOps) for (const config of (tier === 'thorough' ? ['FULL', 'COMMENTS', 'METHODS_ONLY'] : ['FULL'])) {
+      r.stats.states++; r.stats.transitions++
+      leaves.push({ fam: 'tight', key: 'tight¦' + ctx + '¦' + op + '¦' + config, code: ctx.split('@@').join(op), config, desc: 'tight ctx' })
+    }
     // inputs that mention identifiers with the reserved prefix: either refused, or the content must still load
     const e = require('./C06.js').familyE()
     for (const l of e.leaves) leaves.push(Object.assign({}, l, { fam: 'reserved', desc: 'reserved-name ' + l.place }))
